@@ -18,6 +18,8 @@ BuildA(lo, hi) == IF lo > hi THEN <<>>
 \* once-only marker: the runner fails the run (infrastructure error) if "PRECOMPUTE" is printed more than once
 A == IF PrintT("PRECOMPUTE") THEN BuildA(1, NG) ELSE <<>>
 
+\* names of the 256 byte values as the library prints them (utils::char_names): the byte itself if 33..126, else \xHH
+CharNames == JsonDeserialize("cnames.json")
 HasDumps == "VERIF_DUMPS" \in DOMAIN IOEnv
 Ds == IF HasDumps THEN ndJsonDeserialize(IOEnv.VERIF_DUMPS) ELSE <<>>
 
@@ -73,6 +75,27 @@ LexScanOuter(dsets, bytes, i, p, best) ==
   LET r == LexScan(dsets, bytes, i, p, best, CHUNK) IN
   IF r.done THEN r.best ELSE LexScanOuter(r.ds, bytes, r.i, p, r.best)
 LexRefAt(gg, bytes, p) == LexScanOuter(TLCEval([t \in DOMAIN LexAsts[gg] |-> {LexAsts[gg][t]}]), bytes, p, p, <<-1, 0>>)
+(***************************************************************************)
+(* C16 / C04 (run layer): the lines dfa_match prints in verbose mode while  *)
+(* it runs the DUMPED lexer automaton - "Recognized <idx>" whenever the     *)
+(* current state recognises a term, then per consumed byte "Current char"  *)
+(* and "New state" - as events; source point advanced per byte.            *)
+(***************************************************************************)
+DfaTo(row, b) == LET m == {k \in DOMAIN row.tr : row.tr[k][1] <= b /\ b <= row.tr[k][2]} IN
+                 IF m = {} THEN -1 ELSE row.tr[CHOOSE k \in m : TRUE][3]
+RECURSIVE DfaLines(_, _, _, _, _, _, _, _)
+DfaLines(dfa, cn, bytes, i, q, ln, cl, acc) ==
+  LET row == dfa[q + 1]
+      a1 == IF row.rec # <<>> THEN Append(acc, <<"lexrec", ln, cl, row.rec[1]>>) ELSE acc
+  IN IF i = Len(bytes) THEN a1
+     ELSE LET b == bytes[i + 1] to == DfaTo(row, b) IN
+          IF to = -1 THEN a1
+          ELSE DfaLines(dfa, cn, bytes, i + 1, to, IF b = 10 THEN ln + 1 ELSE ln, IF b = 10 THEN 1 ELSE cl + 1,
+                        Append(Append(a1, <<"lexchar", ln, cl, cn[b + 1]>>), <<"lexstate", ln, cl, to>>))
+LexLinesDump(gg, bytes, p, ln, cl, vb) ==
+  IF ~vb \/ ~HasDumps \/ Gs[gg].lex \notin {"chars", "ref"} \/ Len(Ds[gg].lexer) = 0 THEN <<>>
+  ELSE DfaLines(Ds[gg].lexer, CharNames, bytes, p, 0, ln, cl, <<>>)
+
 \* C18: the harness' custom lexer answers (index, length) as dictated by the byte it is asked at (harness/rt.hpp
 \* byte_lexer): arbitrary in-range answers, chosen by the input itself
 LexByte(gg, bytes, p) ==
